@@ -1689,6 +1689,149 @@ fn cyclerace(rep: &mut Report) {
     rep.s("cyclerace", "not applicable: this build has no deadlock detection".into());
 }
 
+// ------------------------------------------------------------------------------------------------ a cycle closed while a subscriber is slow
+/// (builds with deadlock detection only) three actors, each on its own OS thread, and a tracing subscriber that now and then
+/// takes tens of milliseconds to take an event of the crate (blocking I/O): Front asks Slow with a deadline that races
+/// Slow's reply, then asks Back (no deadline), and Back - after a little work - asks Front. That last ask closes the cycle
+/// Back -> Front -> Back whatever became of the first ask, so it is reported (Back's task ends with the deadlock panic)
+#[cfg(feature = "deadlock")]
+mod slw {
+    use super::*;
+    pub struct Node;
+    impl Actor for Node {
+        type Args = ();
+        type Error = String;
+        async fn on_start(_: (), _: &ActorRef<Self>) -> Result<Self, String> {
+            Ok(Node)
+        }
+    }
+    pub struct PingAfter(pub u64);
+    pub struct Start {
+        pub slow: ActorRef<Node>,
+        pub back: ActorRef<Node>,
+        pub delay: u64,
+        pub deadline: u64,
+        pub back_work: u64,
+    }
+    pub struct Poke(pub ActorRef<Node>, pub u64);
+    pub struct CallBack;
+    impl Message<PingAfter> for Node {
+        type Reply = u32;
+        async fn handle(&mut self, m: PingAfter, _: &ActorRef<Self>) -> u32 {
+            tokio::time::sleep(Duration::from_millis(m.0)).await;
+            1
+        }
+    }
+    impl Message<CallBack> for Node {
+        type Reply = u32;
+        async fn handle(&mut self, _: CallBack, _: &ActorRef<Self>) -> u32 {
+            2
+        }
+    }
+    impl Message<Start> for Node {
+        type Reply = String;
+        async fn handle(&mut self, m: Start, me: &ActorRef<Self>) -> String {
+            let first = match m.slow.ask_with_timeout(PingAfter(m.delay), Duration::from_millis(m.deadline)).await {
+                Ok(_) => "reply",
+                Err(rsactor::Error::Timeout { .. }) => "timeout",
+                Err(_) => "error",
+            };
+            let second = match m.back.ask(Poke(me.clone(), m.back_work)).await {
+                Ok(s) => format!("reply({s})"),
+                Err(e) => format!("error({e})"),
+            };
+            format!("first ask: {first}; second ask: {second}")
+        }
+    }
+    impl Message<Poke> for Node {
+        type Reply = String;
+        async fn handle(&mut self, m: Poke, _: &ActorRef<Self>) -> String {
+            tokio::time::sleep(Duration::from_millis(m.1)).await;
+            match m.0.ask_with_timeout(CallBack, Duration::from_millis(1500)).await {
+                Ok(_) => "ok".into(),
+                Err(rsactor::Error::Timeout { .. }) => "timeout after 1500 ms".into(),
+                Err(_) => "error".into(),
+            }
+        }
+    }
+    /// one actor on its own thread and runtime: hands out its reference, ends when told to, says whether its task panicked
+    pub fn host(out: std::sync::mpsc::Sender<ActorRef<Node>>, end: std::sync::mpsc::Receiver<()>) -> std::thread::JoinHandle<bool> {
+        std::thread::spawn(move || {
+            let rt = tokio::runtime::Builder::new_current_thread().enable_time().build().unwrap();
+            rt.block_on(async move {
+                let (r, mut jh) = rsactor::spawn::<Node>(());
+                let _ = out.send(r.clone());
+                loop {
+                    if let Ok(res) = tokio::time::timeout(Duration::from_millis(5), &mut jh).await {
+                        return matches!(res, Err(ref e) if e.is_panic());
+                    }
+                    if end.try_recv().is_ok() {
+                        let _ = r.kill();
+                    }
+                }
+            })
+        })
+    }
+}
+#[cfg(feature = "deadlock")]
+fn slowlog(secs: u64, rep: &mut Report) {
+    use slw::*;
+    let rounds_max = if secs > 1 { 240 } else { 60 };
+    let mut rounds = 0u64;
+    let mut firsts = std::collections::BTreeMap::<String, u64>::new();
+    harness::log::install();
+    harness::log::SLOW_LOG_SEED.store(MIX_SEED.load(SeqCst), SeqCst);
+    harness::log::SLOW_LOG_MS.store(50, SeqCst);
+    for round in 0..rounds_max {
+        rounds += 1;
+        let deadline = 40u64;
+        let delay = deadline - 1 - (round as u64 % 6);
+        let back_work = [0u64, 25, 60][(round as usize / 6) % 3];
+        note(format!("slowlog: round {round}: Slow replies after {delay} ms, the deadline is {deadline} ms, Back works {back_work} ms before asking Front"));
+        let mut refs = vec![];
+        let mut ends = vec![];
+        let mut hosts = vec![];
+        for _ in 0..3 {
+            let (tx, rx) = std::sync::mpsc::channel();
+            let (etx, erx) = std::sync::mpsc::channel();
+            hosts.push(host(tx, erx));
+            refs.push(rx.recv().unwrap());
+            ends.push(etx);
+        }
+        let (front, slow, back) = (refs[0].clone(), refs[1].clone(), refs[2].clone());
+        drop(refs);
+        let rt = tokio::runtime::Builder::new_current_thread().enable_time().build().unwrap();
+        let out = rt.block_on(async {
+            tokio::time::timeout(Duration::from_secs(20), front.ask(Start { slow: slow.clone(), back: back.clone(), delay, deadline, back_work })).await
+        });
+        for e in &ends {
+            let _ = e.send(());
+        }
+        drop((front, slow, back));
+        let panicked: Vec<bool> = hosts.into_iter().map(|h| h.join().unwrap_or(false)).collect();
+        let outs = match &out {
+            Ok(Ok(s)) => s.clone(),
+            Ok(Err(e)) => format!("Front's handler did not answer: {e}"),
+            Err(_) => "Front's handler did not finish within 20 s".to_string(),
+        };
+        *firsts.entry(outs.split(';').next().unwrap_or("").to_string()).or_insert(0) += 1;
+        if !panicked[2] {
+            rep.v("C14", format!("slowlog (round {round}): three actors on three threads, a tracing subscriber that takes up to 50 ms for some events; Front asked Slow (reply after {delay} ms, deadline {deadline} ms), then asked Back without a deadline, and Back - after {back_work} ms of work - asked Front while Front was still waiting for Back: that ask closes the cycle Back -> Front -> Back and must be reported with the deadlock panic, but Back's task did not panic; Front's handler: {outs}; tasks that panicked (Front, Slow, Back): {panicked:?}"));
+            break;
+        }
+        if panicked[0] || panicked[1] {
+            rep.v("C14 C15", format!("slowlog (round {round}): only Back's ask closes a cycle, but the tasks that ended with a panic are (Front, Slow, Back) = {panicked:?}; Front's handler: {outs}"));
+            break;
+        }
+    }
+    harness::log::SLOW_LOG_MS.store(0, SeqCst);
+    rep.s("slowlog", format!("rounds={rounds} subscriber_stalls={} first_ask_outcomes={firsts:?}", harness::log::SLOW_LOG_STALLS.load(SeqCst)));
+}
+#[cfg(not(feature = "deadlock"))]
+fn slowlog(_secs: u64, rep: &mut Report) {
+    rep.s("slowlog", "not applicable: this build has no deadlock detection".into());
+}
+
 // ------------------------------------------------------------------------------------------------ late completion (real time)
 struct G {
     log: Arc<Mutex<Vec<u32>>>,
@@ -3129,6 +3272,7 @@ fn main() {
             "afterend" => ("C11 C03", 240),
             "queuedask" => ("C03 C06 C11 C01 C07 C13", 240),
             "cyclerace" => ("C14", 600),
+            "slowlog" => ("C14 C15", 900),
             "erasedblk" => ("C16 C17", 600),
             "blocking" => ("C17 C10 C03", 720),
             "ids" => ("C11", 120),
@@ -3161,6 +3305,7 @@ fn main() {
                     "afterend" => afterend(&mut r),
                     "queuedask" => queuedask(&mut r),
                     "cyclerace" => cyclerace(&mut r),
+                    "slowlog" => slowlog(secs, &mut r),
                     "erasedblk" => erasedblk(&mut r),
                     "blocking" => blocking(&mut r),
                     "ids" => ids(&mut r),
